@@ -108,6 +108,19 @@ Proof.
 Qed.
 Print Assumptions C04_construct_fresh.
 
+(* ---- the same, per (clause, row): the group of a clause with `;` sits on ONE blank node b (the subject of all its
+   triples) that does not occur in the old store and is mentioned by no triple of any OTHER group ---- *)
+Theorem C04_reified_blank_private :
+  forall st tmpl rows draw gs i',
+  fresh_supply (old_ids st tmpl rows) draw ->
+  produced (output_bindings tmpl) draw 0 (list_prod tmpl rows) gs i' ->
+  forall n g c r, nth_error gs n = Some g -> nth_error (list_prod tmpl rows) n = Some (c, r) -> cRest c <> [] ->
+  exists b, (forall t, In t g -> subject_of t = Blank b) /\
+            ~ In b (store_blanks st) /\
+            (forall n' g' t', n' <> n -> nth_error gs n' = Some g' -> In t' g' -> ~ mentions b t').
+Proof. exact reified_blank_is_private. Qed.
+Print Assumptions C04_reified_blank_private.
+
 (* ---- DECONSTRUCT: every output graph = old contents minus the instantiated triples (no `;` in the grammar) ---- *)
 Theorem C04_deconstruct :
   forall bulk st tmpl outs ins wb q draw r st',
